@@ -28,6 +28,8 @@
 #include <arpa/inet.h>
 #include <netinet/tcp.h>
 #include <sys/wait.h>
+#include <sys/stat.h>
+#include <dlfcn.h>
 
 /* ------------------------------------------------------------------ raw syscalls */
 static long raw6(long n, long a, long b, long c, long d, long e, long f) {
@@ -49,6 +51,8 @@ struct ent { int live, id, bylib, user, xfer, lastid, glob, reported; };
 static int lock_want;   /* >0 while the next `pipe` creations are the once-per-process signal lock pipe */
 static struct ent L[MAXFD];
 static char priv[MAXFD], base[MAXFD];
+static unsigned long long ident[MAXFD][2];   /* (st_dev, st_ino) of every caller-owned descriptor when it was handed out */
+static int err_fd = -1;                      /* the harness' own stderr while a caller descriptor sits on number 2 */
 static int next_id, in_uv, main_pid, out_fd = 1, nviol;
 static int quiet, qcount;                       /* `util` ops: ledger + monitors, but no env lines and no canonical ids */
 static int auth_close = -1;                     /* uv_fs_close(fd): user asked for this close */
@@ -68,6 +72,10 @@ static void viol(const char* sig, const char* fmt, ...) {
 static int forking;        /* inside the `fork` op: the atfork handlers of the child belong to the ledger too */
 static int active(void) { return in_uv && (forking || (int) raw6(SYS_getpid, 0, 0, 0, 0, 0, 0) == main_pid); }
 static int getfd_flags(int fd) { return (int) raw6(SYS_fcntl, fd, F_GETFD, 0, 0, 0, 0); }
+static int identity(int fd, unsigned long long id[2]) {
+  struct stat st; if (raw6(SYS_fstat, fd, (long) &st, 0, 0, 0, 0) != 0) return -1;
+  id[0] = (unsigned long long) st.st_dev; id[1] = (unsigned long long) st.st_ino; return 0;
+}
 
 /* failure injection for the current op: k-th call of <name> fails with errno e */
 struct inj { char name[24]; int k, e, fired; };
@@ -98,6 +106,7 @@ static void reg(int fd, const char* kind) {
 static int reg_user(int fd, const char* kind) {          /* harness-created user fd */
   struct ent* e = &L[fd];
   e->live = 1; e->id = e->lastid = next_id++; e->bylib = 0; e->user = 1; e->xfer = 0; e->glob = 0; e->reported = 0; priv[fd] = 0;
+  if (identity(fd, ident[fd])) ident[fd][0] = ident[fd][1] = 0;
   outf("env fd+ f%d %s cx=u", e->id, kind);
   return e->id;
 }
@@ -197,6 +206,13 @@ ssize_t recvmsg(int fd, struct msghdr* m, int fl) {
 int setsockopt(int fd, int level, int opt, const void* v, socklen_t l) {
   if (level == IPPROTO_TCP && opt == TCP_NODELAY) { int e = inject("nodelay"); if (e) { errno = e; return -1; } }
   return (int) RAW(SYS_setsockopt, fd, level, opt, v, l);
+}
+/* fork(): the kernel may refuse (EAGAIN: RLIMIT_NPROC / pids.max, ENOMEM); the real one runs the atfork handlers */
+pid_t fork(void) {
+  static pid_t (*real_fork)(void);
+  if (!forking) { int e = inject("fork"); if (e) { errno = e; return -1; } }
+  if (real_fork == NULL) real_fork = (pid_t (*)(void)) dlsym(RTLD_NEXT, "fork");
+  return real_fork();
 }
 /* libuv's allocator (uv_replace_allocator): failures injected by occurrence, like the syscalls */
 static void* a_malloc(size_t n) { if (active()) { int e = inject("malloc"); if (e) { errno = ENOMEM; return NULL; } } return malloc(n); }
@@ -360,6 +376,11 @@ static void monitors(int final) {
     int k = kfd_of(id); if (k < 0) continue;
     struct ent* e = &L[k];
     if (!now[k]) { viol("FD-VANISHED", "f%d (kernel %d) is not open any more but nobody logged a close", e->id, k); e->live = 0; continue; }
+    if (!e->bylib && e->user && (ident[k][0] || ident[k][1])) {
+      unsigned long long id[2];
+      if (identity(k, id) == 0 && (id[0] != ident[k][0] || id[1] != ident[k][1]) && !(e->reported & 16) && (e->reported |= 16))
+        viol("FD-REPLACED", "caller's f%d (kernel %d) no longer refers to the open file it referred to when the caller created it", e->id, k);
+    }
     if (e->bylib) { int fl = getfd_flags(k); if ((fl < 0 || !(fl & FD_CLOEXEC)) && !(e->reported & 2) && (e->reported |= 2)) viol("NO-CLOEXEC", "f%d created by libuv lacks FD_CLOEXEC at API return", e->id); }
     char ow[256]; owners_of(k, ow, sizeof ow);
     if (ow[0] && e->user && !e->xfer && !(e->reported & 8) && (e->reported |= 8))
@@ -381,12 +402,14 @@ static void monitors(int final) {
 }
 
 /* ------------------------------------------------------------------ user-side helpers (not libuv) */
-static int place(int fd, int at) {      /* move a user fd onto stdio number `at` (0/1) */
+static int place(int fd, int at) {      /* move a user fd onto stdio number `at` (0/1/2) */
   if (at < 0) return fd;
+  if (at == 2 && err_fd < 0) { err_fd = (int) RAW(SYS_fcntl, 2, F_DUPFD_CLOEXEC, 1001); if (err_fd >= 0) priv[err_fd] = 1; }
   raw6(SYS_dup3, fd, at, 0, 0, 0, 0); raw6(SYS_close, fd, 0, 0, 0, 0, 0); return at;
 }
 static int mk_sock(int dom, int type) { return (int) RAW(SYS_socket, dom, type | SOCK_CLOEXEC, 0); }
-static void userclose_all(void) { for (int k = 0; k < MAXFD; k++) if (L[k].live && L[k].user) { if (k > 2) raw6(SYS_close, k, 0, 0, 0, 0, 0); L[k].live = 0; } }
+static void restore_stderr(void) { if (err_fd >= 0) { raw6(SYS_dup3, err_fd, 2, 0, 0, 0, 0); raw6(SYS_close, err_fd, 0, 0, 0, 0, 0); priv[err_fd] = 0; err_fd = -1; } }
+static void userclose_all(void) { for (int k = 0; k < MAXFD; k++) if (L[k].live && L[k].user) { if (k > 2) raw6(SYS_close, k, 0, 0, 0, 0, 0); else if (k == 2) restore_stderr(); L[k].live = 0; } }
 
 static void child_main(void) {
   char now[MAXFD], b[512]; int n = 0;
@@ -484,8 +507,8 @@ int main(int argc, char** argv) {
       outf("ret %s", R(rc));
     } else if (!strcmp(op, "ufd") && nw >= 2) {
       int at = -1; if (nw >= 3 && !strncmp(w[2], "at=", 3)) at = atoi(w[2] + 3);
-      if (at > 1) { outf("bad-op"); goto after; }
-      if (at >= 0 && (L[0].live || L[1].live)) { outf("bad-op"); goto after; }   /* one stdio-placed descriptor at a time */
+      if (at > 2) { outf("bad-op"); goto after; }
+      if (at >= 0 && (L[0].live || L[1].live || L[2].live)) { outf("bad-op"); goto after; }   /* one stdio-placed descriptor at a time */
       if (!strcmp(w[1], "tcpsock")) reg_user(place(mk_sock(AF_INET, SOCK_STREAM), at), "sock");
       else if (!strcmp(w[1], "udpsock")) reg_user(place(mk_sock(AF_INET, SOCK_DGRAM), at), "sock");
       else if (!strcmp(w[1], "unixsock")) reg_user(place(mk_sock(AF_UNIX, SOCK_STREAM), at), "sock");
@@ -497,6 +520,7 @@ int main(int argc, char** argv) {
       int k = kfd_of(fid(w[1])); if (k < 0 || !L[k].user || L[k].xfer) { outf("bad-op"); goto after; }
       outf("env fd- f%d", L[k].id); L[k].live = 0;
       if (k > 2) raw6(SYS_close, k, 0, 0, 0, 0, 0);
+      else if (k == 2) restore_stderr();
       else { int nul = (int) RAW(SYS_openat, AT_FDCWD, "/dev/null", O_RDWR, 0); raw6(SYS_dup3, nul, k, 0, 0, 0, 0); raw6(SYS_close, nul, 0, 0, 0, 0, 0); }
     } else if (!strcmp(op, "open") && nw == 3) {
       int i = hid(w[1]), k = kfd_of(fid(w[2]));
@@ -555,6 +579,7 @@ int main(int argc, char** argv) {
     } else if (!strcmp(op, "close") && nw == 2) {
       int i = hid(w[1]); if (!live_h(i, -1)) { outf("bad-op"); goto after; }
       outf("# close kind=%s", KN[HS[i].kind]);
+      { int wf = -1; uv_fileno(HS[i].h, &wf); if (wf >= 0 && wf <= 2) outf("# close stdio=%d", wf); }
       in_uv = 1; do_uvclose(i); in_uv = 0; outf("ret 0");
     } else if (!strcmp(op, "run")) {
       in_uv = 1;
